@@ -251,7 +251,7 @@ theorem denL_sumSimplify (S : LeafSem card leaf) {e : Expr} {rs : List Var} (he 
       (hokF := by
         intro n hn
         obtain ⟨c, hc, rfl⟩ := List.mem_map.1 hn
-        exact (hall c (by simpa using hc)).2.2)
+        exact (hall c (by simpa using hc)).2.2.2)
       (hnd := hnd)
       (hU := by
         intro n hn
